@@ -174,7 +174,7 @@ def r07_2(ctx, A):
         ctx.ok(R, 'write_all:%s' % f.path, None, fn=f, at=t.get('span'))
     ctx.count('write_all_sites', len(alls))
     fs, _ = scan(ctx.fixture)
-    ctx.check(R, any(f.path == 'ctl_plain_write' for f, _, _ in fs), 'control-fixture', 'the scan no longer sees the fixture\'s plain write(): checker broken', kind='undecided')
+    ctx.check(R, any(f.path == 'ctl_plain_write' for f, _, _ in fs), 'control-fixture', 'the scan no longer sees the fixture\'s plain write(): checker broken', kind='violation')
 
 
 def r07_3(ctx, A):
